@@ -85,6 +85,44 @@ def determinism(prop, n=200) -> int:
 # ------------------------------------------------------------------------------- sensitivity
 # (name, relative file, old text, new text, expected: 'caught' | 'quiet')
 MUTANTS = {
+    "C19": [
+        ("told-before-newline-check", "tatsu/packetz/queue.py", """                if not raw.endswith(b"\\n"):
+                    break
+
+                self._told = max(q.tell(), self._told)
+""", """                self._told = max(q.tell(), self._told)
+                if not raw.endswith(b"\\n"):
+                    break
+""", "caught"),
+        ("no-newline-check", "tatsu/packetz/queue.py", """                if not raw.endswith(b"\\n"):
+                    break
+""", "", "caught"),
+        ("skip-checksum", "tatsu/packetz/packet.py", "    if hash != actual:", "    if False and hash != actual:", "caught"),
+        ("writer-truncates", "tatsu/packetz/queue.py", 'self.path.open("at", encoding="utf-8", buffering=1)', 'self.path.open("wt", encoding="utf-8", buffering=1)', "caught"),
+        ("write-without-newline", "tatsu/packetz/queue.py", 'queue.write(serial + "\\n")', 'queue.write(serial)', "caught"),
+        ("swallow-and-yield", "tatsu/packetz/queue.py", "                    continue  # Skip corrupt rows safely\n", "                    packet = Packet(to='?', data=None)\n", "caught"),
+        ("revert-rle-fix", "tatsu/packetz/compact.py", '    return rle_pattern.sub(expand, text)\n', '    return re.sub(r"~([^~])(\\d+)~", lambda m: m.group(1) * int(m.group(2)), text).replace("~~", "~")\n', "caught"),
+        ("revert-id-fix", "tatsu/util/misc.py", 'return f"{i2greek(mn, width=d)}-{i2greek(os.getpid())}-{i2greek(next(_id_serial))}"', "return i2greek(mn, width=d)", "caught"),
+        ("id-without-serial", "tatsu/util/misc.py", 'return f"{i2greek(mn, width=d)}-{i2greek(os.getpid())}-{i2greek(next(_id_serial))}"', 'return f"{i2greek(mn, width=d)}-{i2greek(os.getpid())}"', "caught"),
+        ("revert-text-mode-reader", "tatsu/packetz/queue.py", 'with self.path.open("rb", buffering=1024 * 256) as q:', 'with self.path.open("rt", encoding="utf-8", buffering=1024 * 256) as q:', "caught"),
+        ("reader-errors-replace", "tatsu/packetz/queue.py", 'with self.path.open("rb", buffering=1024 * 256) as q:', 'with self.path.open("rt", encoding="utf-8", errors="replace", newline="\\n", buffering=1024 * 256) as q:', "caught"),
+        ("revert-tty-fix", "tatsu/packetz/packet.py", "        return '\\\\u001b' if m.group(1) == 'e' else m.group(0)\n\n    return JSON_ESCAPE_RE.sub(unescape, s)", "        return m.group(0)\n\n    return s.replace('\\\\e', '\\x1b')", "caught"),
+        ("revert-at-key-fix", "tatsu/packetz/packet.py", "    s = AT_KEY_RE.sub(r'\"@\\1\":', s)\n", "", "caught"),
+        ("async-no-sleep", "tatsu/packetz/queue.py", "                await asyncio.sleep(0.01)\n", "                pass\n", "caught"),
+        ("told-past-partial-on-eof", "tatsu/packetz/queue.py", """                if not raw.endswith(b"\\n"):
+                    break
+""", """                if not raw.endswith(b"\\n"):
+                    if len(raw) > 64:
+                        self._told = max(q.tell(), self._told)
+                    break
+""", "caught"),
+        ("seen-keyed-by-prefix", "tatsu/packetz/queue.py", "                if packet.id not in self._seen:\n                    self._seen.add(packet.id)", "                if packet.id[:8] not in self._seen:\n                    self._seen.add(packet.id[:8])", "caught"),
+        ("compact-dict-keys-too", "tatsu/packetz/compact.py", "        return {k: compact_value(v) for k, v in data.items()}", "        return {rle_encode(k): compact_value(v) for k, v in data.items()}", "caught"),
+        # negative controls
+        ("NC-told-min", "tatsu/packetz/queue.py", "self._told = max(q.tell(), self._told)", "self._told = min(q.tell(), self._told)", "quiet"),
+        ("NC-no-seen-dedupe", "tatsu/packetz/queue.py", "                if packet.id not in self._seen:\n                    self._seen.add(packet.id)\n                    yield packet", "                if True:\n                    yield packet", "quiet"),
+        ("NC-bigger-read-buffer", "tatsu/packetz/queue.py", 'with self.path.open("rb", buffering=1024 * 256) as q:', 'with self.path.open("rb", buffering=1024 * 1024) as q:', "quiet"),
+    ],
     "C18": [
         ("no-pop", "tatsu/parproc/pmap.py", "_task = futures.pop(future)", "_task = futures.get(future)", "caught"),
         ("pop-never-refill", "tatsu/parproc/pmap.py", "for task in islice(taskiter, 1):", "for task in islice(taskiter, 0):", "caught"),
